@@ -87,7 +87,7 @@ fn check_budget<const N: usize>(
     roots: &[Node],
     inputs: &[Vec<f32>],
     expected: &[Vec<f32>],
-    skip: &[bool],
+    skip: &[Vec<bool>],
     st: &mut Stats,
 ) {
     let f = match guarded(|| GenericVmFunction::<N>::new(&b.ctx, roots)) {
@@ -156,9 +156,6 @@ fn check_budget<const N: usize>(
     };
     let mut any_bad = false;
     for (i, vals) in inputs.iter().enumerate() {
-        if skip[i] {
-            continue;
-        }
         let input: Vec<f32> = slot_of.iter().map(|&s| vals[s]).collect();
         let r = pe.eval(&tape, &input);
         let (out, _) = match r {
@@ -174,6 +171,9 @@ fn check_budget<const N: usize>(
         }
         let out = out.to_vec();
         for (o, (&got, &want)) in out.iter().zip(expected[i].iter()).enumerate() {
+            if skip[i][o] {
+                continue;
+            }
             st.inc("point_comparisons");
             if !same_bits(got, want) && !any_bad {
                 any_bad = true;
@@ -193,6 +193,9 @@ fn check_budget<const N: usize>(
                 return;
             }
             for (o, want) in expected[i].iter().enumerate() {
+                if skip[i][o] {
+                    continue;
+                }
                 st.inc("shadow_comparisons");
                 let got = sh.outputs[o].unwrap_or(f32::NAN);
                 if !same_bits(got, *want) && !any_bad {
@@ -234,7 +237,7 @@ fn check_budget<const N: usize>(
                 return;
             }
             for j in 0..exp_len {
-                if skip[j % inputs.len()] {
+                if skip[j % inputs.len()][o] {
                     continue;
                 }
                 st.inc("slice_comparisons");
@@ -291,15 +294,21 @@ impl Prop for C01 {
             })
             .collect();
         let order = graph::topo(&b.ctx, &roots);
-        let skip: Vec<bool> = inputs
+        let skip: Vec<Vec<bool>> = inputs
             .iter()
             .map(|vals| {
-                let gv = graph::eval_graph(&b.ctx, &order, &b.var_map(vals));
-                graph::nan_feeds_hash(&b.ctx, &order, &gv)
+                let info = crate::props::evalutil::analyse_with(&b, &order, vals, false);
+                roots
+                    .iter()
+                    .map(|r| info.taint[r] != crate::props::evalutil::Taint::Clean)
+                    .collect()
             })
             .collect();
-        st.add("samples_skipped_nan_into_rand_or_mix", skip.iter().filter(|s| **s).count() as u64);
-        st.add("samples_total", skip.len() as u64);
+        st.add(
+            "outputs_skipped_nan_into_rand_or_mix",
+            skip.iter().flatten().filter(|s| **s).count() as u64,
+        );
+        st.add("output_samples_total", skip.iter().map(|s| s.len() as u64).sum());
         st.distinct(p.hash());
         st.sample(|| json!({"program": p.to_json(), "input0": inputs[0].iter().map(|v| format!("{v:?}")).collect::<Vec<_>>(), "expected0": expected[0].iter().map(|v| format!("{v:?}")).collect::<Vec<_>>()}));
         if p.outputs.len() > 1 {
